@@ -16,6 +16,9 @@ CLAIMED = {
  "C14": ("Coq theorems over ALL object graphs (cyclic, shared, dangling): the id()-guarded work list of ** terminates with the fuel |h|+2*edges+2 the model supplies (a real termination proof by a decreasing measure, not a fuel assumption); its result is the value itself followed by the children of every container of the result, each expanded exactly once (NoDup) in order of first occurrence, hence breadth first; it contains exactly the reachable values (sound + complete); * is the children in natural order; entries after a wildcard are evaluated independently with failing ones dropped and order kept; every wildcard adds one list level. Tie: vm_compute correspondence of the graph model against glom on random DAG-shaped and cyclic heaps in text and Path/T spelling, each run under an alarm.",
          "DESIGN.md section 7 C14", TB + "; sets and containers whose element access raises are not generated; Assign/Delete broadcast is covered under C11/C12",
          "Coq proof (termination measure + work-list invariant) + graph-model vs implementation correspondence"),
+ "C13": ("Coq theorems over all class universes (any issubclass / isinstance / MRO), all trees and all registration sequences: _register_fuzzy_type, modelled as the exact snapshot fold with pops and in-place updates, keeps the subtype tree well formed (insert_wf); the repaired _get_closest_type returns a matching registered type that ranks (real base before duck match, earlier MRO position first) at least as well as every most-specific matching registered type, and fails only if none matches (lookup_nearest); when only real bases match it is the first registered class of the MRO (lookup_first_registered_in_mro), hence independent of registration order, tree shape and sibling order (registration_order_irrelevant); the memo never changes an answer and register() empties it (lookup_history_irrelevant, register_takes_effect_immediately). Hypotheses about the universe are checked by a boolean checker on every generated case. Tie: histories of register/lookup events replayed on model and implementation from the observed initial registry; default Glommer vs module registry compared directly.",
+         "DESIGN.md section 7 C13", TB + "; register_op's hash-ordered tree construction is observed, not modelled; registries are separate values in the model, so isolation is by construction",
+         "Coq proof (rose-tree induction, fold invariant) + event-history correspondence against TargetRegistry"),
 }
 REASON_WIP = "check not built yet (work in progress; see DESIGN.md section 7 for the plan)"
 NA = {}
